@@ -531,17 +531,25 @@ impl Scenario for C07 {
             return;
         }
         let before = assets(w);
+        // nobody authorises / the contracts' owner authorises (the owner is none of the holders watched:
+        // whatever an owner-only function does, it must not take from them)
+        let owner = [iw.owner.clone()];
         for (contract, func, args) in calls {
-            let snap = w.snap();
-            let call = w.call(&contract, &func, &args, Auth::Nobody);
-            if call.ok {
-                let after = assets(w);
-                let shrunk = before.iter().zip(after.iter()).any(|(b, a)| a < b);
-                out.expect(!shrunk, "unknown-entry-point.debited-unauthorised", || {
-                    format!("function `{}` (not among the known entry points), called with nobody's authorisation, reduced a balance or allowance: {:?} -> {:?}", func, before, after)
-                });
+            for by_owner in [false, true] {
+                let snap = w.snap();
+                let call = w.call(&contract, &func, &args, if by_owner { Auth::By(&owner) } else { Auth::Nobody });
+                if call.ok {
+                    let after = assets(w);
+                    let shrunk = before.iter().zip(after.iter()).any(|(b, a)| a < b);
+                    out.expect(!shrunk, "unknown-entry-point.debited-unauthorised", || {
+                        format!(
+                            "function `{}` (not among the known entry points), authorised by {}, reduced a balance or allowance of an address that authorised nothing: {:?} -> {:?}",
+                            func, if by_owner { "the contracts' owner only" } else { "nobody" }, before, after
+                        )
+                    });
+                }
+                w.restore(&snap);
             }
-            w.restore(&snap);
         }
         let _ = env;
     }
@@ -556,7 +564,7 @@ fn main() {
         let thorough = tier == "thorough";
         let mut o = Opts::new(tier, if thorough { 5 } else { 3 });
         o.min_depth = 2;
-        o.rule = "27 entry points plus ledger advancement (token approve / transfer / transfer_from / burn / burn_from / transfer_from and burn_from against a holder who granted no allowance (always refused; also with the token's owner as the self-authorising spender) / mint_from / mint_from of a negative amount to a holder who authorised nothing (always refused) / a revocation (with a future and with a zero expiration), a shortening of the allowance and a re-approval of exactly one delegated operation's worth with a near expiration by the holder after which (or after whose expiry) the spender's delegated calls are refused; the holder's allowance is 3 and delegated calls move 2, so a second one exceeds it; gas pay_gas / add_gas; gateway call_contract / validate_message / a stranger's validate_message for the named address's approval (refused, nothing consumed); ITS deploy_interchain_token (naming the counterparty as minter) / deploy_remote_interchain_token / deploy_remote_canonical_token / interchain_transfer of a service-deployed and of a canonical token; operators execute; example send) x 12 authorisation modes {the named address; the counterparty / recipient; the contracts' owner; a stranger; nobody; the named address for an altered argument; the named address for the root call but not the nested debit or gas payment; the named address for the same function with other arguments; the named address being the calling contract; a contract naming someone else; the call naming the called contract itself with nobody authorising; all amounts and gas zero with nobody authorising}, in every state of all histories of successful operations up to the bound; accepted only in the three legitimate modes, ledger bit-identical otherwise; in every state every exported function of the six contracts that the check does not drive by name (found by scanning the source tree) is called unauthorised with arguments built from its parameter types and must not reduce any principal's balance or allowance".into();
+        o.rule = "27 entry points plus ledger advancement (token approve / transfer / transfer_from / burn / burn_from / transfer_from and burn_from against a holder who granted no allowance (always refused; also with the token's owner as the self-authorising spender) / mint_from / mint_from of a negative amount to a holder who authorised nothing (always refused) / a revocation (with a future and with a zero expiration), a shortening of the allowance and a re-approval of exactly one delegated operation's worth with a near expiration by the holder after which (or after whose expiry) the spender's delegated calls are refused; the holder's allowance is 3 and delegated calls move 2, so a second one exceeds it; gas pay_gas / add_gas; gateway call_contract / validate_message / a stranger's validate_message for the named address's approval (refused, nothing consumed); ITS deploy_interchain_token (naming the counterparty as minter) / deploy_remote_interchain_token / deploy_remote_canonical_token / interchain_transfer of a service-deployed and of a canonical token; operators execute; example send) x 12 authorisation modes {the named address; the counterparty / recipient; the contracts' owner; a stranger; nobody; the named address for an altered argument; the named address for the root call but not the nested debit or gas payment; the named address for the same function with other arguments; the named address being the calling contract; a contract naming someone else; the call naming the called contract itself with nobody authorising; all amounts and gas zero with nobody authorising}, in every state of all histories of successful operations up to the bound; accepted only in the three legitimate modes, ledger bit-identical otherwise; in every state every exported function of the six contracts that the check does not drive by name (found by scanning the source tree) is called with nobody's and with only the contracts' owner's authorisation, with arguments built from its parameter types, and must not reduce any other principal's balance or allowance".into();
         (C07 { max_successes: if thorough { 4 } else { 2 } }, o)
     });
 }
